@@ -53,6 +53,10 @@ class FnLower:
             elif k in CASTS and e.get('castKind') in ('NoOp', 'ConstructorConversion', 'UserDefinedConversion'): e = e['inner'][-1]
             else: return e
 
+    def strip_casts(self, e):
+        while e.get('kind') in WRAPPERS + CASTS + ('MaterializeTemporaryExpr',) and e.get('inner'): e = e['inner'][-1]
+        return e
+
     def is_glvalue(self, e):
         return e.get('valueCategory') in ('lvalue', 'xvalue')
 
@@ -582,6 +586,7 @@ class FnLower:
                 cargs = []
                 for p, a in zip(ps, args):
                     cargs.append(self.addr(a) if L.is_ref(p) else self.rv(a))
+                if model == 'vp_string' and len(args) == 1 and self.strip_casts(args[0]).get('kind') == 'StringLiteral': nm += '_lit'
                 L.stubs.setdefault(nm, 'void %s(%s)' % (nm, ', '.join(['%s * self' % t[1]] + [L.ctype(p) for p in ps])))
                 L.stats['externals'].add(nm)
                 self.emit('%s(%s);' % (nm, ', '.join([target] + cargs)))
@@ -901,6 +906,10 @@ class FnLower:
         cargs = self.operands(items)
         nm = 'vpx_' + sanitize(name.replace('operator<<', 'op_shl').replace('operator>>', 'op_shr').replace('operator==', 'op_eq').replace('operator!=', 'op_ne').replace('operator+', 'op_plus').replace('operator|', 'op_or').replace('operator&', 'op_and').replace('operator~', 'op_not').replace('operator()', 'op_call').replace('operator', 'op_'))
         if ptys: nm += '__' + '_'.join(tsan(p) for p in ptys)
+        # constant text streamed into an ostream (string / character literals) is told apart from data: the
+        # token-log model of ostringstream records data tokens only
+        if name == 'operator<<' and len(args) == 2 and self.strip_casts(args[1]).get('kind') in ('StringLiteral', 'CharacterLiteral'):
+            nm += '_lit'
         rct = 'void' if ret_t is None else L.ctype_of(ret_t) + (' *' if returns_ref else '')
         L.stubs.setdefault(nm, '%s %s(%s)' % (rct, nm, ', '.join(ptys) or 'void'))
         L.stats['externals'].add(nm)
